@@ -3,7 +3,7 @@
    The Module P is Main4's development with [render] replaced by [renderP] (generated text). *)
 From Coq Require Import List NArith Bool Arith Lia.
 From CV Require Import Ast.Defs Ast.Frag Ast.Basics Ast.Ctx Ast.Stage1 Ast.Main1 Ast.Stage2 Ast.Main2 Ast.NoDecl Ast.Stage3
-                       Ast.Main3 Ast.Stage4 Ast.Stage5 Ast.Main4 Ast.Prep.
+                       Ast.Main3 Ast.Stage4 Ast.Stage5 Ast.Main4 Ast.Prep Ast.TopQ.
 Import ListNotations.
 
 Lemma renderP_balanced : forall e, balanced (renderP e).
@@ -135,16 +135,16 @@ Qed.
 
 Ltac split_and H := repeat (apply andb_true_iff in H; let H2 := fresh H in destruct H as [H H2]).
 
-Lemma main5 : forall cpp e, frag5 e = true -> wf e = true -> labels_ok e = true -> mid_okP e = true ->
+Lemma main5 : forall cpp e, frag5 e = true -> wf e = true -> labels_ok e = true ->
   Sx cpp (renderP e) (tree_of e) (rank e) /\ ender2 (renderP e) /\ starter1 (renderP e) /\ renderP e <> [].
 Proof.
-  induction e; intros Hf Hw Hl Hm; try discriminate; cbn [frag5] in Hf; cbn [wf labels_ok] in Hw, Hl; cbn [mid_okP] in Hm.
+  induction e; intros Hf Hw Hl; try discriminate; cbn [frag5] in Hf; cbn [wf labels_ok] in Hw, Hl.
   - repeat split; [apply Sx_id|apply strict_end_ender2; apply (strict_end_snoc []); reflexivity|discriminate].
   - repeat split; [apply Sx_num|apply strict_end_ender2; apply (strict_end_snoc []); reflexivity|discriminate].
   - (* EPre *)
     apply andb_true_iff in Hw. destruct Hw as [Hw1 Hw2].
     apply andb_true_iff in Hl. destruct Hl as [Hl1 Hl2].
-    destruct (IHe Hf Hw2 Hl2 Hm) as [Sa [Ea [Sta Na]]].
+    destruct (IHe Hf Hw2 Hl2) as [Sa [Ea [Sta Na]]].
     cbn [renderP tree_of].
     pose proof (Sx_wrap cpp (Nat.ltb (prec e) P_PRE) (rootlab e) _ _ _ Sa (rank_le e) (renderP_balanced e)) as Wa.
     pose proof (starter_wrap (Nat.ltb (prec e) P_PRE) (rootlab e) _ Sta) as Ws.
@@ -161,7 +161,7 @@ Proof.
     + discriminate.
   - (* EPost *)
     apply andb_true_iff in Hw. destruct Hw as [Hw1 Hw2]. apply negb_true_iff in Hw1.
-    destruct (IHe Hf Hw2 Hl Hm) as [Sa [Ea [Sta Na]]].
+    destruct (IHe Hf Hw2 Hl) as [Sa [Ea [Sta Na]]].
     cbn [renderP tree_of].
     repeat split.
     + change (rank (EPost l o e)) with 0.
@@ -170,8 +170,8 @@ Proof.
     + apply starter_app. apply starter_wrap. exact Sta.
     + apply app_nonnil. apply wrap_nonnil. exact Na.
   - (* EBin *)
-    split_and Hf. split_and Hw. split_and Hl. split_and Hm.
-    destruct (IHe1 Hf Hw Hl Hm) as [Sa [Ea [Sta Na]]]. destruct (IHe2 Hf0 Hw0 Hl0 Hm0) as [Sb [Eb [Stb Nb]]].
+    split_and Hf. split_and Hw. split_and Hl.
+    destruct (IHe1 Hf Hw Hl) as [Sa [Ea [Sta Na]]]. destruct (IHe2 Hf0 Hw0 Hl0) as [Sb [Eb [Stb Nb]]].
     cbn [renderP tree_of].
     pose proof (Sx_wrap cpp (Nat.ltb (prec e1) (bin_prec o)) (rootlab e1) _ _ _ Sa (rank_le e1) (renderP_balanced e1)).
     pose proof (Sx_wrap cpp (Nat.ltb (prec e2) (S (bin_prec o))) (rootlab e2) _ _ _ Sb (rank_le e2) (renderP_balanced e2)).
@@ -187,8 +187,8 @@ Proof.
     + apply starter_app. apply starter_wrap. exact Sta.
     + apply app_nonnil. apply wrap_nonnil. exact Na.
   - (* EAsg *)
-    split_and Hf. split_and Hw. split_and Hl. split_and Hm.
-    destruct (IHe1 Hf Hw Hl Hm) as [Sa [Ea [Sta Na]]]. destruct (IHe2 Hf0 Hw0 Hl0 Hm0) as [Sb [Eb [Stb Nb]]].
+    split_and Hf. split_and Hw. split_and Hl.
+    destruct (IHe1 Hf Hw Hl) as [Sa [Ea [Sta Na]]]. destruct (IHe2 Hf0 Hw0 Hl0) as [Sb [Eb [Stb Nb]]].
     cbn [renderP tree_of].
     pose proof (Sx_wrap cpp (Nat.ltb (prec e1) P_LOR) (rootlab e1) _ _ _ Sa (rank_le e1) (renderP_balanced e1)).
     pose proof (Sx_wrap cpp (Nat.ltb (prec e2) P_ASG) (rootlab e2) _ _ _ Sb (rank_le e2) (renderP_balanced e2)).
@@ -200,37 +200,36 @@ Proof.
       * apply ender2_wrap; exact Ea.
       * apply wrap_nonnil; exact Nb.
       * apply wrap_nonnil; exact Na.
+      * apply dbal_wrap. apply renderP_dbal.
     + apply ender2_mid; [apply wrap_nonnil; exact Nb|apply ender2_wrap; exact Eb].
     + apply starter_app. apply starter_wrap. exact Sta.
     + apply app_nonnil. apply wrap_nonnil. exact Na.
   - (* ECond *)
-    split_and Hf. split_and Hw. split_and Hl. split_and Hm.
-    destruct (IHe1 Hf Hw Hl Hm2) as [Sc [Ec [Stc Nc]]]. destruct (IHe2 Hf1 Hw1 Hl1 Hm1) as [Sa [Ea [Sta Na]]].
-    destruct (IHe3 Hf0 Hw0 Hl0 Hm0) as [Sb [Eb [Stb Nb]]].
+    split_and Hf. split_and Hw. split_and Hl.
+    destruct (IHe1 Hf Hw Hl) as [Sc [Ec [Stc Nc]]]. destruct (IHe2 Hf1 Hw1 Hl1) as [Sa [Ea [Sta Na]]].
+    destruct (IHe3 Hf0 Hw0 Hl0) as [Sb [Eb [Stb Nb]]].
     cbn [renderP tree_of].
     pose proof (Sx_wrap cpp (Nat.ltb (prec e1) P_LOR) (rootlab e1) _ _ _ Sc (rank_le e1) (renderP_balanced e1)) as Wc.
     pose proof (Sx_wrap cpp (topn e2) lq _ _ _ Sa (rank_le e2) (renderP_balanced e2)) as Wa.
     pose proof (Sx_wrap cpp (Nat.ltb (prec e3) P_ASG) (rootlab e3) _ _ _ Sb (rank_le e3) (renderP_balanced e3)) as Wb.
     repeat split.
     + change (rank (ECond lq lc e1 e2 e3)) with 14.
-      eapply Sx_cond; [exact Wc|exact Wa|exact Wb| | | | | | |].
+      eapply Sx_cond; [exact Wc|exact Wa|exact Wb| | | | | | | |].
       * pose proof (wrapped_rank e1 P_LOR). unfold P_LOR in *. lia.
       * destruct (topn e2) eqn:Et; [lia|]. pose proof (topn_false_prec e2 Et). unfold rank. lia.
       * pose proof (wrapped_rank e3 P_ASG). unfold P_ASG in *. lia.
-      * intros E. destruct (topn e2) eqn:Et; [discriminate E|]. cbn [wrap orb] in *.
-        apply orb_true_iff in Hm. destruct Hm as [H|H].
-        -- apply negb_true_iff in H. apply Nat.eqb_neq in H. unfold rank, P_ASG in *. destruct (prec_range e2). lia.
-        -- apply negb_true_iff in H. exact H.
+      * intros E. destruct (topn e2) eqn:Et; [discriminate E|]. cbn [wrap]. apply topn_false_topq. exact Et.
       * apply starter_wrap. exact Sta.
       * apply wrap_nonnil; exact Nc.
       * apply wrap_nonnil; exact Nb.
+      * apply dbal_wrap. apply renderP_dbal.
     + apply ender2_mid; [intro H0; apply app_eq_nil in H0; destruct H0 as [_ H0]; discriminate|].
       apply (ender2_mid (wrap (topn e2) lq (renderP e2))); [apply wrap_nonnil; exact Nb|apply ender2_wrap; exact Eb].
     + apply starter_app. apply starter_wrap. exact Stc.
     + apply app_nonnil. apply wrap_nonnil. exact Nc.
   - (* EComma *)
-    split_and Hf. split_and Hw. split_and Hl. split_and Hm.
-    destruct (IHe1 Hf Hw Hl Hm) as [Sa [Ea [Sta Na]]]. destruct (IHe2 Hf0 Hw0 Hl0 Hm0) as [Sb [Eb [Stb Nb]]].
+    split_and Hf. split_and Hw. split_and Hl.
+    destruct (IHe1 Hf Hw Hl) as [Sa [Ea [Sta Na]]]. destruct (IHe2 Hf0 Hw0 Hl0) as [Sb [Eb [Stb Nb]]].
     cbn [renderP tree_of].
     pose proof (Sx_wrap cpp (Nat.ltb (prec e1) P_COMMA) (rootlab e1) _ _ _ Sa (rank_le e1) (renderP_balanced e1)).
     pose proof (Sx_wrap cpp (Nat.ltb (prec e2) P_ASG) (rootlab e2) _ _ _ Sb (rank_le e2) (renderP_balanced e2)).
@@ -246,7 +245,7 @@ Proof.
     + apply app_nonnil. apply wrap_nonnil. exact Na.
   - (* ECall0 *)
     split_and Hw. apply negb_true_iff in Hw, Hw1.
-    destruct (IHe Hf Hw0 Hl Hm) as [Sa [Ea [Sta Na]]].
+    destruct (IHe Hf Hw0 Hl) as [Sa [Ea [Sta Na]]].
     cbn [renderP tree_of].
     repeat split.
     + change (rank (ECall0 l e)) with 0.
@@ -255,8 +254,8 @@ Proof.
     + apply starter_app. apply starter_wrap. exact Sta.
     + apply app_nonnil. apply wrap_nonnil. exact Na.
   - (* ECall *)
-    split_and Hf. split_and Hw. split_and Hl. split_and Hm. apply negb_true_iff in Hw, Hw2.
-    destruct (IHe1 Hf Hw1 Hl Hm) as [Sa [Ea [Sta Na]]]. destruct (IHe2 Hf0 Hw0 Hl0 Hm0) as [Sb [Eb [Stb Nb]]].
+    split_and Hf. split_and Hw. split_and Hl. apply negb_true_iff in Hw, Hw2.
+    destruct (IHe1 Hf Hw1 Hl) as [Sa [Ea [Sta Na]]]. destruct (IHe2 Hf0 Hw0 Hl0) as [Sb [Eb [Stb Nb]]].
     cbn [renderP tree_of]. rewrite wrap_comma.
     repeat split.
     + change (rank (ECall l e1 e2)) with 0.
@@ -270,8 +269,8 @@ Proof.
     + apply starter_app. apply starter_wrap. exact Sta.
     + apply app_nonnil. apply wrap_nonnil. exact Na.
   - (* EIdx *)
-    split_and Hf. split_and Hw. split_and Hl. split_and Hm.
-    destruct (IHe1 Hf Hw Hl Hm) as [Sa [Ea [Sta Na]]]. destruct (IHe2 Hf0 Hw0 Hl0 Hm0) as [Sb [Eb [Stb Nb]]].
+    split_and Hf. split_and Hw. split_and Hl.
+    destruct (IHe1 Hf Hw Hl) as [Sa [Ea [Sta Na]]]. destruct (IHe2 Hf0 Hw0 Hl0) as [Sb [Eb [Stb Nb]]].
     cbn [renderP tree_of]. rewrite wrap_comma.
     repeat split.
     + change (rank (EIdx l e1 e2)) with 0.
@@ -286,7 +285,7 @@ Proof.
     + apply starter_app. apply starter_wrap. exact Sta.
     + apply app_nonnil. apply wrap_nonnil. exact Na.
   - (* EMem *)
-    destruct (IHe Hf Hw Hl Hm) as [Sa [Ea [Sta Na]]].
+    destruct (IHe Hf Hw Hl) as [Sa [Ea [Sta Na]]].
     cbn [renderP tree_of].
     repeat split.
     + change (rank (EMem ld lm e m)) with 0.
@@ -295,7 +294,7 @@ Proof.
     + apply starter_app. apply starter_wrap. exact Sta.
     + apply app_nonnil. apply wrap_nonnil. exact Na.
   - (* EPar *)
-    destruct (IHe Hf Hw Hl Hm) as [Sa [Ea [Sta Na]]]. cbn [renderP tree_of].
+    destruct (IHe Hf Hw Hl) as [Sa [Ea [Sta Na]]]. cbn [renderP tree_of].
     repeat split.
     + change (rank (EPar l e)) with 0.
       apply (Sx_paren cpp (renderP e) (tree_of e) (rank e) l l Sa); [apply rank_le|apply renderP_balanced].
@@ -334,10 +333,10 @@ Qed.
 
 (* every constructor except casts, prepareTernaryOpForAST included *)
 Theorem parse_render_stage6 : forall cpp e,
-  frag5 e = true -> wf e = true -> labels_ok e = true -> mid_okP e = true ->
+  frag5 e = true -> wf e = true -> labels_ok e = true ->
   decl_like (renderP e) = false ->
   parse cpp (render e) = Some (tree_of e).
 Proof.
-  intros cpp e Hf Hw Hl Hm Hd. destruct (P.main5 cpp e Hf Hw Hl Hm) as [HS _].
+  intros cpp e Hf Hw Hl Hd. destruct (P.main5 cpp e Hf Hw Hl) as [HS _].
   apply (parse_of_SxP cpp (render e) (renderP e) _ (rank e) HS); [apply rank_le|apply prep_render|exact Hd].
 Qed.
